@@ -28,6 +28,12 @@ mkdir -p "/verif/seeded/$NAME"
 import json, sys, os, glob
 src, name, pid, rc_clean, rc_mut, res, out = sys.argv[1:8]
 meta = json.load(open(os.path.join(src, "meta.json")))
+try:
+    prev = json.load(open("/verif/seeded/%s/meta.json" % name))
+    if "history" in prev and "history" not in meta:
+        meta["history"] = prev["history"]          # notes added after an earlier run survive a re-run
+except (OSError, ValueError):
+    pass
 suite = open("/tmp/seed_suite_%s.txt" % name).read().strip()
 viol = []
 for f in glob.glob(os.path.join(out, "check_*.txt")):
